@@ -8,6 +8,7 @@ case "$name" in
   RemoveTmpFiles.bounded) pkgdir=internal/fileutil; file=$here/removetmp_test.go.txt; run=TestBoundedRemoveTmpFiles;;
   directories.bounded)    pkgdir=.;                 file=$here/directories_test.go.txt; run=TestBoundedSnapshotDirectories;;
   codecs.bounded)         pkgdir=.;                 file=$here/codecs_test.go.txt; run=TestBoundedCodecs;;
+  tornprefix.bounded)     pkgdir=.;                 file=$here/tornprefix_test.go.txt; run=TestBoundedTornPrefix;;
   *) echo "BOUNDED name=$name cases=0 bound=unknown ok=false detail=unknown-check"; exit 2;;
 esac
 tmp=$(mktemp -d /var/tmp/bounded-XXXXXX)
